@@ -164,3 +164,46 @@ def mode_switch(first: int, second: int, dbl: bool) -> str:
         if i + 1 < len(caps) and c.end != caps[i + 1].start:
             return "a caption must end exactly when the next one begins"
     return ""
+
+
+def painton_multi_position(npos: int, preceded: bool, dbl: bool, drop: bool) -> str:
+    """
+    pre: 1 <= npos <= 3
+    post: _ == ""
+    """
+    # ONE Resume-Direct-Captioning block that paints text at 1-3 separate screen positions (returned as that many
+    # captions with one start) - as the last block of the stream: every part gets start < end, parts shown together
+    # end together
+    n = 1 if npos == 1 else (2 if npos == 2 else 3)
+    rows = (3, 8, 13)
+    lines = []
+    texts = []
+    sec = 2
+    if preceded:
+        lines.append(_tc(sec, drop) + "\t" + " ".join(_dbl([R.RDC, R.pac(15, 0)] + R.chars("zz"), dbl)))
+        texts.append("zz")
+        sec += 3
+    words = [R.RDC]
+    for j in range(n):
+        t = TEXTS[j]
+        words += [R.pac(rows[j], 4 * j)] + R.chars(t)
+        texts.append(t)
+    lines.append(_tc(sec, drop) + "\t" + " ".join(_dbl(words, dbl)))
+    doc = HEADER + "\n\n".join(lines) + "\n"
+    try:
+        caps = SCCReader().read(doc).get_captions("en-US")
+    except Exception as e:
+        return "reader raised " + type(e).__name__
+    if "".join("".join(c.get_text().split()) for c in caps) != "".join(texts):
+        return "characters lost, duplicated or reordered"
+    last = [c for c in caps if c.start == caps[-1].start]
+    if len(last) != n:
+        return "parts of one paint-on block do not share their start"
+    for c in caps:
+        if not (c.start < c.end):
+            return "start < end"
+    if len(set(c.end for c in last)) != 1:
+        return "parts shown together do not end together"
+    if preceded and caps[0].end != last[0].start:
+        return "a caption must end exactly when the next one begins"
+    return ""
